@@ -82,23 +82,15 @@ pub struct Era(pub(crate) TinyAsciiStr<16>);
 
 #[derive(Debug)]
 pub struct EraYear {
-    pub(crate) era: Era,
+    pub(crate) era: Option<Era>,
     pub(crate) year: i32,
 }
 
 impl EraYear {
     pub(crate) fn try_from_partial_date(partial: &PartialDate) -> TemporalResult<Self> {
         match (partial.year, partial.era, partial.era_year) {
-            (Some(year), None, None) => {
-                let Some(era) = partial.calendar.get_calendar_default_era() else {
-                    return Err(TemporalError::r#type()
-                        .with_message("Era is required for the provided calendar."));
-                };
-                Ok(Self {
-                    era: Era(era.name),
-                    year,
-                })
-            }
+            // A year given without an era is the calendar's arithmetic year.
+            (Some(year), None, None) => Ok(Self { era: None, year }),
             (None, Some(era), Some(era_year)) => {
                 let Some(era_info) = partial.calendar.get_era_info(&era) else {
                     return Err(TemporalError::range().with_message("Invalid era provided."));
@@ -111,7 +103,7 @@ impl EraYear {
                 }
                 Ok(Self {
                     year: era_year,
-                    era: Era(era_info.name),
+                    era: Some(Era(era_info.name)),
                 })
             }
             _ => Err(TemporalError::r#type()
